@@ -43,6 +43,12 @@ var c09Fixed = []string{
 	// EOF after CloseConnectionResponse is the orderly end
 	"new:0 start pf:63:0:1:0 shutdown:1 w:1 ps:4:@1:0 r:1 pc rc",
 	"new:0 start pf:63:0:1:0 shutdown:1 w:1 ps:4:@1:0 pc r:1 rc",
+	// a Shutdown that gave up before its CloseConnection reached the write loop (nothing was written) leaves no trace: an
+	// unrequested CloseConnectionResponse followed by the end of the stream is a failed connection, not an orderly end
+	"new:0 shutdown:1 z cancel:1 r:1 start pf:63:0:1:0 z ps:4:77:0 pc rc",
+	"new:0 start z shutdown:1 z cancel:1 r:1 pf:63:0:1:0 z ps:4:77:0 pc rc",
+	"new:1 shutdown:1 z cancel:1 r:1 start pf:63:0:1:0 w:1 ps:56:0:18 w:2 ps:57:1:0 z ps:4:77:0 pc rc",
+	"new:1 start pf:63:0:1:0 w:1 shutdown:1 z cancel:1 r:1 ps:56:0:18 w:2 ps:57:1:0 z ps:4:77:0 pc rc",
 }
 
 type c09seg struct {
